@@ -320,6 +320,17 @@ type peer struct {
 	readEnd   chan struct{}
 	writerEnd chan struct{}
 	killed    atomic.Bool
+	// pauseUntil (unix ns): the reader does not touch its socket before this instant (a peer that
+	// is slow to read)
+	pauseUntil atomic.Int64
+	readDelay  atomic.Int64 // ns the reader waits before every read once set (a peer that reads slowly)
+}
+
+// stallReads makes the peer stop reading from its socket for d and read slowly afterwards (one
+// message per `each`).
+func (p *peer) stallReads(d, each time.Duration) {
+	p.pauseUntil.Store(time.Now().Add(d).UnixNano())
+	p.readDelay.Store(int64(each))
 }
 
 func newPeer(name string, c *websocket.Conn, notify chan struct{}) *peer {
@@ -363,6 +374,12 @@ func (p *peer) start() {
 func (p *peer) readLoop() {
 	defer close(p.readEnd)
 	for {
+		if d := time.Until(time.Unix(0, p.pauseUntil.Load())); d > 0 {
+			time.Sleep(d)
+		}
+		if d := p.readDelay.Load(); d > 0 {
+			time.Sleep(time.Duration(d))
+		}
 		mt, data, err := p.c.ReadMessage()
 		if err != nil {
 			p.mu.Lock()
